@@ -14,10 +14,13 @@ T = "SMT-based bounded symbolic execution of the real code from go/ssa"
 
 CLAIMED = {
  "C01": {"technique": T + " (implicit no-panic obligations: bounds, nil, division, type assertion, explicit panic, callee contracts)",
-  "text": "Every operator node and every function-table entry (all argument counts its bounds accept), with receiver and arguments ranging over every value form with full-width symbolic payloads, returns a collection or an error: the solver shows no index/slice/nil/division/assertion/panic site is reachable, or produces the input. Compile (ANTLR), field navigation and Patch are outside the claim.",
+  "text": "Every operator node and every function-table entry (all argument counts its bounds accept), with receiver and arguments ranging over every value form with full-width symbolic payloads, returns a collection or an error: the solver shows no index/slice/nil/division/assertion/panic site is reachable, or produces the input. Field navigation is covered for harness-built resources of symbolic shape (see C02); string-literal decoding for every body the lexer lets through; termination through the unwinding bound plus 'hang' candidates replayed under a time limit. Compile's ANTLR front end and Patch are outside the claim.",
   "design_ref": "DESIGN.md §4 C01", "note": BASE_NOTE},
+ "C02": {"technique": T + " (protoreflect reads answered from the generated struct types; resource shape symbolic; the message tree stands in for the JSON tree)",
+  "text": "Reduced scope, stated: the real TypeExpression / FieldExpression / IndexExpression are executed over harness-built Patient and Observation messages of symbolic shape (0..2 repetitions at each repeated level, optional elements present or absent, each variant of the choice elements). Dotted paths yield exactly the message's own nodes at that path, in document order, repeated elements flattened, absent ones contributing nothing; choice elements yield the chosen value; typed, untyped and fragment references read back through `reference` as Type/id[/_history/vid], the URI and #id; `.value` of primitives yields the denoted System value; proto-only fields are not reachable; unknown names are errors. Outside the claim: every other R4 resource type (the model handles any generated message, the harnesses build two), the google/fhir JSON mapping itself (the message tree is taken as the JSON tree), contained resources and Bundle entries (protoreflect-based unwrapping), extensions.",
+  "design_ref": "DESIGN.md §9.7", "note": BASE_NOTE},
  "C03": {"technique": T + " (frame obligations on protected heap cells)",
-  "text": "With the input collection, environment-variable collections (including the cells between len and cap) and the expression tree protected, no operator node and no table function can reach a store into them; returned FHIR elements are the inputs' own nodes. Mutation inside protoreflect-based navigation is outside the claim.",
+  "text": "With the input collection, environment-variable collections (including the cells between len and cap) and the expression tree protected, no operator node and no table function can reach a store into them; returned FHIR elements are the inputs' own nodes. FHIR primitive elements in every shape are protected while operators convert them; navigation over a protected Patient of symbolic shape writes nothing either. Contained-resource and Bundle unwrapping are outside the claim.",
   "design_ref": "DESIGN.md §4 C03", "note": BASE_NOTE},
  "C04": {"technique": T + " (read-only-sharing premises; clock as nondeterministic stub; table isolation over two-step histories)",
   "text": "The premises of race-freedom and determinism are decided instead of schedules: no evaluation step writes to any package-level variable, to the expression tree or to its inputs; each Evaluate builds a fresh context and reads the clock once; now/today/timeOfDay are functions of that instant; function tables of successive Compile configurations are isolated for a symbolic function name. Actual interleavings and ANTLR's caches are outside the claim.",
@@ -64,7 +67,6 @@ CLAIMED = {
 }
 
 NOT_APPLICABLE = {
- "C02": "navigation is protoreflect descriptor lookup + dynamic message reads against a jsonformat oracle: no code on the path is encodable by the SSA/SMT engine (DESIGN.md §5)",
  "C11": "the deciding code is the ANTLR ATN interpreter over generated tables; a grammar model would not be the code (DESIGN.md §5)",
  "C18": "every patch step is protoreflect traversal/mutation located by pointer identity; oracle is the JSON tree (DESIGN.md §5)",
  "C20": "reflection-built registry and protoreflect/protorange; the finite-schema quantifier is enumeration, not a solver question (DESIGN.md §5)",
